@@ -168,6 +168,63 @@ def sc_decorate_and_check():
     return make, judge
 
 
+def sc_decorate_forward_unions():
+    """Two threads decorate callables whose hints are unions mixing two plain classes with a forward reference that is
+    still unresolvable at decoration time (the code generator partitions the union's types into references and classes
+    in scratch lists); afterwards the names are defined and both wrappers are called."""
+    from beartype import beartype
+    from beartype.roar import BeartypeCallHintViolation
+    import sys
+    import types as _types
+
+    def make():
+        k = next(_K)
+        P, Q = _fresh_classes()
+        modname = f'c15_fwd_{k}'
+        mod = _types.ModuleType(modname)
+        sys.modules[modname] = mod
+        made = {}
+
+        def body(tag, cls, other):
+            def run():
+                def f(a):
+                    return a
+                f.__module__ = modname
+                f.__annotations__ = {'a': typing.Union[f'Later{tag}', cls, int]}
+                made[tag] = beartype(f)
+                return 'decorated'
+            return run
+        made['P'], made['Q'], made['mod'] = P, Q, mod
+        _STATE['fwd_made'] = made
+        return [body('A', P, Q), body('B', Q, P)]
+
+    def judge(res):
+        made = _STATE['fwd_made']
+        P, Q, mod = made['P'], made['Q'], made['mod']
+        LaterA = type('LaterA', (), {})
+        LaterB = type('LaterB', (), {})
+        mod.LaterA, mod.LaterB = LaterA, LaterB
+        out = []
+        for tag, ok_objs, bad_objs in (('A', (P(), 1, LaterA()), (Q(), 's', LaterB())), ('B', (Q(), 1, LaterB()), (P(), 's', LaterA()))):
+            g = made.get(tag)
+            if g is None:
+                return f'thread {tag} did not produce a wrapper'
+            for x in ok_objs:
+                try:
+                    g(x)
+                except Exception as e:
+                    return f'wrapper {tag} (Union[Later{tag}, class, int]) raised {type(e).__name__} for the conforming {type(x).__name__} instance'
+            for x in bad_objs:
+                try:
+                    g(x)
+                    return f'wrapper {tag} accepted the violating {type(x).__name__} instance'
+                except BeartypeCallHintViolation:
+                    pass
+                except Exception as e:
+                    return f'wrapper {tag} raised {type(e).__name__} for the violating {type(x).__name__} instance'
+    return make, judge
+
+
 def sc_register_packages():
     from beartype.claw import beartype_package
     from beartype.claw._package.clawpkgtrie import get_package_conf_or_none
@@ -287,6 +344,7 @@ SCENARIOS = {
     'is_bearable over fresh unions x2': sc_bearable_unions,
     'checks of one fresh hint x2': sc_bearable_same_hint,
     'decorate | check | decorate': sc_decorate_and_check,
+    'decorate Union[fwd, P, int] | decorate Union[fwd, Q, int]': sc_decorate_forward_unions,
     'beartype_package(a) | beartype_package(b) | lookup': sc_register_packages,
     'beartyping(A) | lookup': sc_beartyping_vs_lookup,
     'beartyping(A) | beartype_all(B)': sc_beartyping_vs_all,
